@@ -103,6 +103,28 @@ HistCmds == {[C("track") EXCEPT !.entry = <<"1h">>], [C("track") EXCEPT !.entry 
              [C("pause") EXCEPT !.ticks = <<60, 125>>], [C("pause") EXCEPT !.extend = TRUE, !.ticks = <<60>>]}
 
 (***************************************************************************)
+(* Clock mode (C17): layouts of open ranges around "today", for several     *)
+(* kinds of days; seed = 10 * layout + day                                  *)
+(***************************************************************************)
+Days == <<Ord(2020, 3, 15), Ord(2020, 2, 29), Ord(2021, 3, 1), Ord(2020, 12, 31), Ord(2021, 1, 1)>>
+DayOf(s) == Days[(s % 10) + 1]
+D(o) == FormatDate(o, TRUE)
+ClockSeed(s) ==
+    LET t == DayOf(s)  lay == s \div 10 IN
+    CASE lay = 0 -> D(t) \o "\n    0:00 - ?\n"                                            \* open today (from midnight)
+      [] lay = 1 -> D(t - 1) \o "\n    0:00 - ?\n"                                        \* open yesterday only
+      [] lay = 2 -> D(t - 1) \o "\n    23:00 - ?\n\n" \o D(t) \o "\n    <23:30 - ?\n"   \* both
+      [] lay = 3 -> D(t - 1) \o "\n    1h\n\n" \o D(t) \o "\n    1h\n"                  \* records, none open
+      [] lay = 4 -> ""                                                                    \* no record at all
+      [] lay = 5 -> D(t - 1) \o "\n    8:00 - ?\n\n" \o D(t + 1) \o "\n    <1:00 - ?\n"   \* yesterday and tomorrow open
+SeedText(s) == IF Mode = "clock" THEN ClockSeed(s) ELSE Seeds[s]
+
+ClockRoundings == <<0, 5, 10, 12, 15, 20, 30, 60>>
+ClockCmds == {[C(op) EXCEPT !.dsel = ds, !.round = r]
+                : op \in {"start", "stop", "switch"}, ds \in {"none", "today", "yesterday", "tomorrow"},
+                  r \in {ClockRoundings[i] : i \in 1..8}}
+
+(***************************************************************************)
 (* Rendering a command as CLI arguments                                     *)
 (***************************************************************************)
 IntStr(n) == IF n < 0 THEN "-" \o NatStr(0 - n) ELSE NatStr(n)
@@ -135,8 +157,8 @@ CfgText(cfg) ==
 
 Step(c, now, cfg) == [args |-> ToArgs(c), now |-> Stamp(now, 0), ticks |-> [j \in 1..Len(c.ticks) |-> Stamp(now, c.ticks[j])],
                       cmd |-> c, nowv |-> now, cfgv |-> cfg]
-CaseOf(s, h) == [kind |-> "cli", files |-> ("f.klg" :> Seeds[s]), cfg |-> CfgText(h[1].cfgv), parse |-> TRUE,
-                 repeat |-> 3, cmds |-> h]
+CaseOf(s, h) == [kind |-> "cli", files |-> ("f.klg" :> SeedText(s)), cfg |-> CfgText(h[1].cfgv), parse |-> TRUE,
+                 repeat |-> IF Mode = "clock" THEN 1 ELSE IF Full THEN 3 ELSE 2, cmds |-> h]
 
 (***************************************************************************)
 (* Canonical successor of the abstract records under the model (used for    *)
@@ -169,9 +191,10 @@ Apply(m, RR) ==
 (***************************************************************************)
 (* Behaviour: choose a seed, then extend the history command by command.    *)
 (***************************************************************************)
-Depth == IF Mode = "single" THEN 1 ELSE IF Mode = "pairs" THEN 2 ELSE 3
-Pool(k) == IF Mode = "single" THEN AllCmds ELSE HistCmds
+Depth == IF Mode \in {"single", "clock"} THEN 1 ELSE IF Mode = "pairs" THEN 2 ELSE 3
+Pool(k) == IF Mode = "single" THEN AllCmds ELSE IF Mode = "clock" THEN ClockCmds ELSE HistCmds
 SeedSet == IF Mode = "single" THEN 1..NSeeds
+           ELSE IF Mode = "clock" THEN {10 * lay + d : lay \in 0..5, d \in 0..4}
            ELSE IF Mode = "pairs" THEN {3, 4, 5, 7, 10, 17, 22}
            ELSE {3 + (SeedN % 3), 22}
 
@@ -179,8 +202,8 @@ Data(text) == LET p == ParseDoc(text) IN IF p.ok THEN DocData(p) ELSE <<>>
 
 Init == /\ seed \in SeedSet
         /\ hist = <<>>
-        /\ R = Data(Seeds[seed])
-        /\ ok = (ParseDoc(Seeds[seed]).status = "Conforming")
+        /\ R = Data(SeedText(seed))
+        /\ ok = (ParseDoc(SeedText(seed)).status = "Conforming")
 NowAt(k) == [Now0 EXCEPT !.min = @ + 7 * k]       \* the clock advances between the commands of a history
 Now2350 == [Now0 EXCEPT !.min = 23 * 60 + 50, !.sec = 0]
 Now0002 == [Now0 EXCEPT !.min = 2, !.sec = 59]
@@ -191,8 +214,15 @@ Cfg24 == [Cfg0 EXCEPT !.timeconv = "24h"]
 CfgR  == [Cfg0 EXCEPT !.rounding = 30]
 CfgSh == [Cfg0 EXCEPT !.should = "8h!"]
 (* clock and configuration variants, one factor at a time *)
+ClockPick(minute, c, s) ==    \* quick tier: per minute one rounding (rotating) and, per command, two layouts
+    Full \/ (/\ c.round = ClockRoundings[((minute + SeedN) % 8) + 1]
+             /\ (s \div 10) \in {(minute + SeedN) % 6, (minute + 3 + SeedN) % 6}
+             /\ (s % 10) = (minute + SeedN) % 5)
 Variants(c, k) ==
-    IF Mode # "single" THEN {<<NowAt(k), Cfg0>>}
+    IF Mode = "clock"
+    THEN {<<[ord |-> DayOf(seed), min |-> m, sec |-> (m * 7) % 60], IF c.round = 0 /\ m % 2 = 0 THEN Cfg0 ELSE Cfg0>>
+            : m \in {mm \in 0..1439 : ClockPick(mm, c, seed)}}
+    ELSE IF Mode # "single" THEN {<<NowAt(k), Cfg0>>}
     ELSE {<<Now0, Cfg0>>}
          \cup (IF c.op \in {"start", "stop", "switch"} /\ c.time = ""
                THEN {<<Now2350, Cfg0>>, <<Now0002, Cfg0>>, <<Now0, CfgR>>, <<Now2350, CfgR>>} ELSE {})
